@@ -56,7 +56,8 @@ def run(p, xs, resets=(), seed=0):
     """p: window_size, ev_threshold, delta, divergence_metric, sample_period, online_scaling; xs: list of rows"""
     from menelaus.data_drift import PCACD
     det = PCACD(window_size=p["window_size"], ev_threshold=p["ev_threshold"], delta=p["delta"],
-                divergence_metric=p["divergence_metric"], sample_period=p["sample_period"], online_scaling=p["online_scaling"])
+                divergence_metric=p["divergence_metric"], sample_period=p["sample_period"],
+                online_scaling={"npbool": np.bool_(True), "one": 1}.get(p.get("flag"), p["online_scaling"]))      # ("flag": a truthy value that is not the builtin True)
     W = p["window_size"]
     step = min(100, round(p["sample_period"] * W))
     bins = int(np.floor(np.sqrt(W)))
